@@ -219,8 +219,10 @@ def run(ctx):
         cfg5 = CFG(fn)
         nodes = [cfg5.node_of(c) for c in calls_in(fn, shallow=True) if call_name(c) == "self.backend.record_call_node"]
         tags = [cfg5.node_of(c) for c in calls_in(fn) if call_name(c) == "self.backend.record_call_node_context"]
-        if not nodes or not tags:
-            raise AnalysisError(f"{q}: record_call_node / record_call_node_context not found", q)
+        if not nodes:
+            raise AnalysisError(f"{q}: record_call_node not found", q)
+        if not tags:
+            continue  # no tagging at all in this finaliser: that is C05.4's violation, not an ordering question
         for n in nodes:
             one_call = any(kw.arg in ("context", "context_hash") for c in ast.walk(n.ast) if isinstance(c, ast.Call) and call_name(c) == "self.backend.record_call_node" for kw in c.keywords)
             tag_first = all(cfg5.dominates(t, n) for t in tags)
